@@ -162,11 +162,14 @@ func (omr objMeshReading) toMesh() ObjMesh {
 		SetFloat3Attribute(modeling.PositionAttribute, omr.verts).
 		SetMaterials(omr.meshMats)
 
-	if len(omr.normals) > 0 {
+	// A group may mix corners with and without vn/vt references. An attribute
+	// that not every corner supplied cannot be lined up with the vertices, so
+	// it is only kept when it is complete.
+	if len(omr.normals) > 0 && len(omr.normals) == len(omr.verts) {
 		mesh = mesh.SetFloat3Attribute(modeling.NormalAttribute, omr.normals)
 	}
 
-	if len(omr.uvs) > 0 {
+	if len(omr.uvs) > 0 && len(omr.uvs) == len(omr.verts) {
 		mesh = mesh.SetFloat2Attribute(modeling.TexCoordAttribute, omr.uvs)
 	}
 	return ObjMesh{
